@@ -85,7 +85,9 @@ func loadProg(dir, tags string, needCG bool) (*Prog, error) {
 	p.SSA = prog
 	p.All = ssautil.AllFunctions(prog)
 	for f := range p.All {
-		if inModule(f) {
+		// wrappers, thunks and bound-method closures only forward their
+		// arguments; rules look at declared functions and closures
+		if inModule(f) && (f.Synthetic == "" || f.Synthetic == "package initializer") {
 			p.Mod = append(p.Mod, f)
 		}
 	}
